@@ -395,6 +395,10 @@ func (w *worker[T, JobType]) goRemoveIdleWorkers() {
 			}
 
 			nodes := w.pool.NodeSlice()
+			// the idle list may have shrunk since the length check above
+			if len(nodes) <= targetIdleWorkers {
+				continue
+			}
 			// If we have more nodes than our target, close the excess ones
 			for _, node := range nodes[targetIdleWorkers:] {
 				if node.Value.GetLastUsed().Add(interval).Before(time.Now()) &&
